@@ -8,7 +8,7 @@ from .. import canon
 from . import common, corpus
 
 PROP = 'C09'
-LEVEL = 'exploration'
+LEVEL = 'fault_enumeration'
 WANT_RAISES = True
 RULE = ('cases = hostile byte strings with nesting <= 64 by construction '
         '(C08 corpus without the deeper nests): single-byte replacements, '
